@@ -315,6 +315,28 @@ def sanitizer_text(err):
     return any(k in err for k in ("AddressSanitizer", "runtime error:", "UndefinedBehaviorSanitizer", "Assertion", "assertion failed", "LeakSanitizer"))
 
 
+_SHIM = []
+
+
+def noinotify_shim():
+    """path of the LD_PRELOAD library that makes inotify unavailable to the daemon (harness/c/policy_noinotify.c says why);
+    built once per process tree next to the other build products; "" if it cannot be built"""
+    if not _SHIM:
+        src = os.path.join(os.path.dirname(os.path.dirname(os.path.abspath(__file__))), "c", "policy_noinotify.c")
+        bdir = os.environ.get("VERIF_BUILD", os.path.join(os.path.dirname(os.path.dirname(os.path.dirname(os.path.abspath(__file__)))), "build"))
+        out = os.path.join(bdir, "policy_noinotify.so")
+        try:
+            if not os.path.exists(out) or os.path.getmtime(out) < os.path.getmtime(src):
+                import subprocess
+                tmp = out + ".%d" % os.getpid()
+                subprocess.run(["cc", "-shared", "-fPIC", "-O1", "-o", tmp, src], check=True, capture_output=True)
+                os.replace(tmp, out)
+            _SHIM.append(out)
+        except Exception:
+            _SHIM.append("")
+    return _SHIM[0]
+
+
 def start_daemon(exe, scn):
     """start the daemon on the scenario's configuration.  Returns (Daemon, "") or (None, stderr) when the daemon refuses the
     configuration; raises DaemonCrash on a crash / sanitizer report.  (rawbus.Daemon's methods are reused; its constructor is
@@ -336,6 +358,11 @@ def start_daemon(exe, scn):
     e["ASAN_OPTIONS"] = "detect_leaks=0:abort_on_error=0:exitcode=99:log_path=" + os.path.join(d.dir, "asan")
     e["UBSAN_OPTIONS"] = "print_stacktrace=1:halt_on_error=1:log_path=" + os.path.join(d.dir, "ubsan")
     e.pop("DBUS_SESSION_BUS_ADDRESS", None)
+    shim = noinotify_shim()
+    if shim:
+        e["LD_PRELOAD"] = shim
+        e["ASAN_OPTIONS"] += ":verify_asan_link_order=0"
+        e["DBUS_FATAL_WARNINGS"] = "0"
     d.errf = open(os.path.join(d.dir, "stderr"), "w")
     d.proc = subprocess.Popen([exe, "--config-file=" + d.conf, "--nofork", "--nopidfile", "--nosyslog"], stdout=subprocess.DEVNULL,
                               stderr=d.errf, env=e)
